@@ -530,6 +530,8 @@ class Run:
                         f.set_result(int(toks[3]))
                     elif toks[2] == 'killed':
                         f.set_exception(plumpy.KilledError('child was killed'))
+                    elif toks[2] == 'cancelled':
+                        f.cancel()          # a child killed by cancelling its future: the awaited future ends cancelled
                     else:
                         f.set_exception(UserExc(int(toks[3])))
                 r = None
@@ -563,7 +565,8 @@ class Run:
         if toks[0] == 'resume' and not raised:
             self.resumes.append((None if toks[1] == '-' else 'N' if toks[1] == 'N' else EXC_VALUE_CODE if toks[1] == 'E' else int(toks[1]),
                                  ph, idx))
-        self.ops.append('resume 0' if op == 'resume N' else f'resume {EXC_VALUE_CODE}' if op == 'resume E' else op)
+        self.ops.append('resume 0' if op == 'resume N' else f'resume {EXC_VALUE_CODE}' if op == 'resume E'
+                        else op.replace(' cancelled', ' killed') if op.startswith('complete ') else op)
         self.observe(ret)
 
     def tick(self):
@@ -721,6 +724,9 @@ def ops_for(prog, alphabet):
         elif o == 'completekilled':
             for f in range(prog.get('nfut', 0)):
                 ops.append(f'complete {f} killed')
+        elif o == 'completecancelled':
+            for f in range(prog.get('nfut', 0)):
+                ops.append(f'complete {f} cancelled')
         else:
             ops.append(o)
     return ops
